@@ -34,10 +34,19 @@ type c06Case struct {
 	Broken  []bool         `json:"broken"` // a syntax error is appended to program i
 	Sources []string       `json:"sources"`
 	Steps   []c06Step      `json:"steps"`
+	// Extra: hand-written programs appended to the set (a pair that marks label
+	// values for expiry / keeps the same label values, so that a GC pass has
+	// something to get wrong)
+	Extra []string `json:"extra,omitempty"`
 	Storm   int            `json:"storm"` // reloads of every running program after the history
 }
 
+func (c *c06Case) n() int { return len(c.Progs) + len(c.Extra) }
+
 func (c *c06Case) source(i int) string {
+	if i >= len(c.Progs) {
+		return c.Extra[i-len(c.Progs)]
+	}
 	s := c.Progs[i].Source()
 	if i < len(c.Broken) && c.Broken[i] {
 		s += "\n/unterminated {\n"
@@ -80,7 +89,7 @@ func c06Exec(c *c06Case, tag string, only int, compiles []bool, kinds []map[stri
 	running := map[int]bool{}
 	snapshot := func() {
 		d := map[int]string{}
-		for i := range c.Progs {
+		for i := 0; i < c.n(); i++ {
 			d[i] = hx.DumpStore(e.store, name(i), hx.DumpOpts{Expiry: true})
 		}
 		res.dumps = append(res.dumps, d)
@@ -90,7 +99,7 @@ func c06Exec(c *c06Case, tag string, only int, compiles []bool, kinds []map[stri
 	// the store while scrapes are in flight)
 	steps := append([]c06Step(nil), c.Steps...)
 	if c.Storm > 0 {
-		for i := range c.Progs {
+		for i := 0; i < c.n(); i++ {
 			for k := 0; k < c.Storm; k++ {
 				steps = append(steps, c06Step{Op: "unload", Prog: i}, c06Step{Op: "load-if-was-running", Prog: i})
 			}
@@ -98,7 +107,7 @@ func c06Exec(c *c06Case, tag string, only int, compiles []bool, kinds []map[stri
 	}
 	wasRunning := map[int]bool{}
 	for si, st := range steps {
-		p := st.Prog % len(c.Progs)
+		p := st.Prog % c.n()
 		if st.Op == "unload" {
 			wasRunning[p] = running[p]
 		}
@@ -116,6 +125,14 @@ func c06Exec(c *c06Case, tag string, only int, compiles []bool, kinds []map[stri
 			}
 			if late := e.quiesce(15 * time.Second); late != nil {
 				res.fail = vstat.Failf("lines-not-processed", "step %d: programs %v did not process the lines they were sent", si, late)
+				return res
+			}
+		case "gc":
+			// a GC pass (in every run of the history, also the alone ones): data
+			// marked `del ... after 1ms` are several milliseconds old by now
+			time.Sleep(4 * time.Millisecond)
+			if err := e.store.Gc(); err != nil {
+				res.fail = vstat.Failf("gc-error", "step %d: %v", si, err)
 				return res
 			}
 		case "unload":
@@ -217,7 +234,7 @@ func c06Exec(c *c06Case, tag string, only int, compiles []bool, kinds []map[stri
 	if !res.scrapeOK && only < 0 {
 		res.fail = vstat.Failf("scrape-fails", "gathering the exporter with all programs loaded fails: %v %v", gerr, perr)
 	}
-	for i := range c.Progs {
+	for i := 0; i < c.n(); i++ {
 		var ls []string
 		for _, l := range strings.Split(text, "\n") {
 			if strings.HasPrefix(l, "#") || !strings.Contains(l, `prog="`+name(i)+`"`) {
@@ -247,7 +264,7 @@ func runC06(c c06Case) (*vstat.Failure, c06Info) {
 	var info c06Info
 	f := vstat.Catch(func() *vstat.Failure {
 		tag := uniq()
-		n := len(c.Progs)
+		n := c.n()
 		compiles := make([]bool, n)
 		kinds := make([]map[string]metrics.Kind, n)
 		for i := 0; i < n; i++ {
@@ -347,6 +364,7 @@ func TestC06(t *testing.T) {
 		feats.OtherwiseInElse = false
 		feats.MaxStmts = 6
 		feats.Text = false
+		feats.ShortExpiry = true
 		feats.Hidden = false // hidden metrics never reach the store; here every declaration should be able to collide
 		st.Check(t, func(rt *rapid.T) {
 			var c c06Case
@@ -377,7 +395,28 @@ func TestC06(t *testing.T) {
 				c.Progs = append(c.Progs, g.P)
 				c.Broken = append(c.Broken, rapid.IntRange(0, 14).Draw(rt, "broken") == 0)
 			}
-			for i := range c.Progs {
+			extraLines := false
+			if rapid.IntRange(0, 3).Draw(rt, "extrapair") == 0 {
+				// a pair with several same-keyed metrics: one program marks every label
+				// value it touches for expiry, the other keeps the same label values
+				var exp, keep strings.Builder
+				for k := 0; k < 4; k++ {
+					fmt.Fprintf(&exp, "counter e%d by w\n", k)
+					fmt.Fprintf(&keep, "counter k%d by w\n", k)
+				}
+				exp.WriteString("/^word (?P<w>\\w+)$/ {\n")
+				keep.WriteString("/^word (?P<w>\\w+)$/ {\n")
+				for k := 0; k < 4; k++ {
+					fmt.Fprintf(&exp, "  e%d[$w]++\n  del e%d[$w] after 1ms\n", k, k)
+					fmt.Fprintf(&keep, "  k%d[$w]++\n", k)
+				}
+				exp.WriteString("}\n")
+				keep.WriteString("}\n")
+				c.Extra = []string{exp.String(), keep.String()}
+				extraLines = true
+				st.Class("with-expiring-and-keeping-pair")
+			}
+			for i := 0; i < c.n(); i++ {
 				c.Sources = append(c.Sources, c.source(i))
 			}
 			ns := rapid.IntRange(np+1, vstat.Scale(10, 14)).Draw(rt, "nsteps")
@@ -387,9 +426,9 @@ func TestC06(t *testing.T) {
 				if s < np {
 					op = "load"
 				} else {
-					op = rapid.SampledFrom([]string{"lines", "lines", "lines", "load", "load", "unload"}).Draw(rt, "op")
+					op = rapid.SampledFrom([]string{"lines", "lines", "lines", "load", "load", "unload", "gc", "gc"}).Draw(rt, "op")
 				}
-				stp := c06Step{Op: op, Prog: rapid.IntRange(0, np-1).Draw(rt, "prog")}
+				stp := c06Step{Op: op, Prog: rapid.IntRange(0, c.n()-1).Draw(rt, "prog")}
 				if s < np {
 					stp.Prog = (s + rapid.IntRange(0, 1).Draw(rt, "order")) % np
 				}
@@ -399,8 +438,16 @@ func TestC06(t *testing.T) {
 						g := gs[rapid.IntRange(0, np-1).Draw(rt, "lineprog")]
 						stp.Lines = append(stp.Lines, c06Line{File: files[rapid.IntRange(0, 1).Draw(rt, "file")], Text: g.GenLine()})
 					}
+					if extraLines {
+						stp.Lines = append(stp.Lines, c06Line{File: "b.log", Text: "word " + rapid.SampledFrom([]string{"a", "b", "c"}).Draw(rt, "word")})
+					}
 				}
 				c.Steps = append(c.Steps, stp)
+				if s == np-1 {
+					for x := range c.Extra {
+						c.Steps = append(c.Steps, c06Step{Op: "load", Prog: np + x})
+					}
+				}
 			}
 			c.Storm = rapid.SampledFrom([]int{0, 2, 4}).Draw(rt, "storm")
 			st.SkipShrink(rt, c)
